@@ -29,23 +29,16 @@ LRA_FNS = {"rate": "FRate", "count_over_time": "FCountOverTime", "bytes_rate": "
            "max_over_time": "FMaxOverTime", "min_over_time": "FMinOverTime", "first_over_time": "FFirstOverTime",
            "last_over_time": "FLastOverTime", "stdvar_over_time": "FStdvarOverTime", "stddev_over_time": "FStddevOverTime"}
 AGG_FNS = {"sum": "ASum", "min": "AMin", "max": "AMax", "avg": "AAvg", "stddev": "AStddev", "stdvar": "AStdvar", "count": "ACount"}
-UNITS = {"ns": 1, "us": 1000, "ms": 10 ** 6, "s": 10 ** 9, "m": 60 * 10 ** 9, "h": 3600 * 10 ** 9}
 
 RE_RANGE = re.compile(r"intDiv\((?:time_series\.|samples\.)?timestamp_ns, (\d+)\) \* (\d+) as timestamp_ns, fingerprint(?: as fingerprint)?, '' as string, (.*?) as value")
 RE_AGG = re.compile(r"SELECT fingerprint as fingerprint, (.*?) as value, lra_main\.timestamp_ns as timestamp_ns")
 RE_M15 = re.compile(r"FROM \S*metrics_15s\S* as samples")
-RE_LRA_Q = re.compile(r"\b(" + "|".join(LRA_FNS) + r")\b")
-RE_AGG_Q = re.compile(r"^(?:topk|bottomk)?\(?\s*(?:\d+\.?\d*,\s*)?(" + "|".join(AGG_FNS) + r")\b")
-RE_DUR_Q = re.compile(r"\[(\d+)(ns|us|ms|s|m|h)\]")
 
 
-def query_facts(q):
-    """the range function, range and vector operator named by the query TEXT (not by any model)"""
-    m = RE_LRA_Q.search(q)
-    d = RE_DUR_Q.search(q)
-    a = RE_AGG_Q.match(q.strip())
-    return (m.group(1) if m else None, int(d.group(1)) * UNITS[d.group(2)] if d else None, a.group(1) if a else None,
-            bool(re.search(r"\|\s*unwrap(_value)?\b[^\[]*\[\d+[a-z]+\]", q)))
+def query_facts(c):
+    """the range function, range, vector operator and unwrap flag named by the PARSED script (harness field `facts`)"""
+    f = c.get("facts") or {}
+    return f.get("lra_fn"), f.get("dur_ns"), f.get("agg_fn"), bool(f.get("unwrapped")), bool(f.get("quantile"))
 
 
 def observations(cases):
@@ -55,8 +48,8 @@ def observations(cases):
         if not c.get("sql"):
             continue
         sql = c["sql"][0]
-        fn, dur, aggfn, unwrapped = query_facts(c["query"])
-        if fn is None or dur is None or "quantile_over_time" in c["query"]:
+        fn, dur, aggfn, unwrapped, quant = query_facts(c)
+        if not fn or not dur or quant:
             continue
         m = RE_RANGE.search(sql)
         if m and m.group(1) == m.group(2):
